@@ -36,8 +36,25 @@ func init() {
 			return Tuple{&cell, Iface{}}
 		})
 		p.reg("(*"+ps+".Topic).Close", func(ex *Exec, fr *Frame, args []Value) Value {
+			if ex.topicCloseFails {
+				// documented failure of Topic.Close: outstanding handlers/subscriptions
+				return ex.newErrorString("cannot close topic: outstanding event handlers or subscriptions")
+			}
 			topic(ex, ex.nonNil(fr, args[0])).closed = true
 			return Iface{}
+		})
+		// announce/gossiptopic.MakeTopic creates a gossipsub on a libp2p host and
+		// joins the topic: modelled as joining a fresh model topic; the returned
+		// cancel function (pubsub shutdown) does nothing
+		p.reg("github.com/ipni/go-libipni/announce/gossiptopic.MakeTopic", func(ex *Exec, fr *Frame, args []Value) Value {
+			tt := ex.p.namedType(ps, "Topic")
+			var cell Value = zero(tt)
+			topic(ex, &cell)
+			return Tuple{&cell, &Native{name: "pubsub-cancel", fn: func(ex *Exec, args []Value) Value { return nil }}, Iface{}}
+		})
+		p.reg("verif_PubsubTopicCloseFails", func(ex *Exec, fr *Frame, args []Value) Value {
+			ex.topicCloseFails = args[0].(*Term).IsConst() && args[0].(*Term).val != 0
+			return nil
 		})
 		p.reg("(*"+ps+".Topic).String", func(ex *Exec, fr *Frame, args []Value) Value { return "/model/topic" })
 		p.reg("(*"+ps+".Topic).Publish", func(ex *Exec, fr *Frame, args []Value) Value {
